@@ -115,18 +115,19 @@ class ExplorerScriptSsbDecompiler:
         raw_routine_backup_ops = deepcopy(self._routine_ops)
 
         # Step 1: Build labels
+        # (kept in a local: convert() can be called again and then has to start from the same ops)
         resolver = OpsLabelJumpToResolver(self._routine_ops)
-        self._routine_ops = list(resolver)
+        resolved_routine_ops = list(resolver)
         has_any_calls = any(
             any(isinstance(op, SsbLabelJump) and any(isinstance(x, CallJump) for x in op.markers) for op in rtn)
-            for rtn in self._routine_ops
+            for rtn in resolved_routine_ops
         )
 
         # Step 2: Build and optimize execution graph
         logger.debug("Building base graph...")
         try:
             # If we have any calls, we disable the optimization that stops at ending opcodes.
-            grapher = SsbGraphMinimizer(self._routine_ops, not has_any_calls)
+            grapher = SsbGraphMinimizer(resolved_routine_ops, not has_any_calls)
             logger.debug("Built base graph...")
             # Remove redundant labels
             grapher.optimize_paths()
